@@ -580,3 +580,11 @@ _more("C29", "Added (C29-query): evhttp_parse_query_impl evaluated on 21 query s
 _more("C17", "Added (C17-pair-talk): be_pair_wants_to_talk as a truth table; be_pair_enable and be_pair_outbuf_cb hand waiting data over iff both sides are willing. "
              "Added (C17-tls-loop): consider_reading triggers the read callback iff some do_read made progress and reads what the TLS library holds decrypted before returning; "
              "consider_writing goes on while output is left and nothing blocks, and never removes the write event with output left.")
+_more("C38", "Added (C38-union): evdns_getaddrinfo_gotresolve as a decision table over which family answered x what it answered (addresses, NODATA, NXDOMAIN, SERVFAIL) x the state of the other "
+             "family (pending, done without result, done with answers, done with an error) x both TTL orders: nothing is reported and the other request is left alone while it is pending, the "
+             "answers are kept; the user hears the union, A before AAAA; an error yields to answers; what is cached is what is reported and lives no longer than the shorter TTL "
+             "(a genuine defect fixed in /repo).",
+      "decision table by evaluation of the extracted merge callback (K6)")
+_more("C40", "Added: the strict-reference family now holds IPv6 texts with a hexadecimal group glued to the embedded dotted quad.")
+_more("C39", "Added (C39-readfile): evutil_read_file_ over open result x file size x malloc result x scripts of read() answers (full, short, zero, error): every read stays inside the block of "
+             "size+1 behind the data read so far, the terminator follows the data, the descriptor is closed once, the block is freed or handed out, never both.")
